@@ -229,6 +229,13 @@ Lemma reject_modes k c d o li : chk_stable k (c_flags c) = true ->
   = beval (c_flags c) false false false (k_reject k).
 Proof. intros H. destruct (chk_stable_spec k (c_flags c) d o li H) as [_ Hr]. exact Hr. Qed.
 
+Lemma ns_clash_modes k c i d o li : chk_stable k (c_flags c) = true ->
+  ns_clash k (with_flags c (set_modes (c_flags c) d o li)) i = ns_clash k c i.
+Proof.
+  intros H. destruct (chk_stable_spec k (c_flags c) d o li H) as [Hr _].
+  unfold ns_clash, types_read. cbn [c_flags with_flags]. rewrite Hr. reflexivity.
+Qed.
+
 Lemma path_effect_pure k c f : guards_ok k = true -> path_effect k c f = f.
 Proof.
   intros HG. unfold guards_ok in HG. rewrite !andb_true_iff in HG. destruct HG as [_ H]. unfold path_effect. rewrite H. reflexivity.
@@ -240,6 +247,7 @@ Theorem list_modes_pure_gen k : guards_ok k = true -> (forall fl nse, chk_pure k
   fst (fst (run k c i f)) = f.
 Proof.
   intros HG Hchk c i f Hm. unfold run. destruct (beval (c_flags c) false false false (k_reject k)); [reflexivity|].
+  destruct (ns_clash k c i); [reflexivity|].
   rewrite fold_pure; [cbn [fst]; apply path_effect_pure; assumption|assumption|].
   specialize (Hchk (c_flags c) (nse_of k c)). unfold chk_pure in Hchk. rewrite Hm in Hchk. exact Hchk.
 Qed.
@@ -260,6 +268,8 @@ Proof.
   unfold run in Hreal. unfold real_of in Hreal. rewrite (reject_modes k c false false false Hs) in Hreal.
   unfold run, lo_of. rewrite (reject_modes k c _ true _ Hs).
   destruct (beval (c_flags c) false false false (k_reject k)); [discriminate|].
+  rewrite (ns_clash_modes k c i _ _ _ Hs) in Hreal. rewrite (ns_clash_modes k c i _ _ _ Hs).
+  destruct (ns_clash k c i); [discriminate|].
   rewrite trace_of_modes in *.
   rewrite (path_effect_pure k _ _ HG) in Hreal. rewrite (path_effect_pure k _ _ HG).
   apply (fold_real k _ i HG _ Hr) in Hreal. destruct Hreal as (_ & Hok & Hfs & Hdirs).
@@ -397,18 +407,18 @@ Proof. unfold type_entries. intros H. apply filter_In in H. apply class_files_in
 Theorem list_inputs_partial_gen k : guards_ok k = true -> (forall fl nse, chk_inputs k fl nse = true) ->
   (forall fl, chk_stable k fl = true) ->
   forall c i, f_lc (c_flags c) = false ->
-  beval (c_flags c) false false false (k_reject k) = false ->
+  beval (c_flags c) false false false (k_reject k) = false -> ns_clash k c i = false ->
   eff_trig_lookup k i = false -> eff_trig_tpl k c i = false -> eff_trig_sup k c = false ->
   (k_fix_suptpl k || support_consistent c) = true ->
   forall x, In x (influence_set k c i) ->
   forall f, exists out, run k (li_of c) i f = (f, out, Ok) /\ In x out.
 Proof.
-  intros HG Hchk Hst c i Hlc Hrej Hlk Hnj Hso Hsc x Hx f.
+  intros HG Hchk Hst c i Hlc Hrej Hclash Hlk Hnj Hso Hsc x Hx f.
   specialize (Hchk (c_flags c) (nse_of k c)). unfold chk_inputs in Hchk. rewrite Hlc in Hchk.
   apply andb_true_iff in Hchk. destruct Hchk as [Hshape Hcov].
   pose proof (Hst (c_flags c)) as Hs.
-  unfold run, li_of. rewrite (reject_modes k c _ false true Hs), Hrej. rewrite trace_of_modes.
-  rewrite (path_effect_pure k _ _ HG).
+  unfold run, li_of. rewrite (reject_modes k c _ false true Hs), Hrej. rewrite (ns_clash_modes k c i _ _ _ Hs), Hclash.
+  rewrite trace_of_modes. rewrite (path_effect_pure k _ _ HG).
   rewrite (fold_inputs k _ i _ Hshape). eexists. split; [reflexivity|]. cbn [app].
   unfold influence_set, real_of in Hx. rewrite trace_of_modes in Hx. apply in_flat_map in Hx. destruct Hx as (a & Ha & Hx).
   rewrite forallb_forall in Hcov. specialize (Hcov a Ha).
@@ -502,15 +512,15 @@ Qed.
 Theorem list_inputs_complete_gen k : guards_ok k = true -> (forall fl nse, chk_inputs k fl nse = true) ->
   (forall fl, chk_stable k fl = true) ->
   k_fix_lookup k = true -> k_fix_nonj2 k = true -> k_fix_suptpl k = true ->
-  forall c i, f_lc (c_flags c) = false -> beval (c_flags c) false false false (k_reject k) = false ->
+  forall c i, f_lc (c_flags c) = false -> beval (c_flags c) false false false (k_reject k) = false -> ns_clash k c i = false ->
   trig_py k c i = false -> trig_sup_refs k c = false ->
   forall x, In x (all_influences k c i) -> is_config_input c x = false ->
   forall f, exists out, run k (li_of c) i f = (f, out, Ok) /\ In x out.
 Proof.
-  intros HG Hchk Hst H1 H2 H3 c i Hlc Hrej Hpy Hrefs x Hx Hcfg.
+  intros HG Hchk Hst H1 H2 H3 c i Hlc Hrej Hclash Hpy Hrefs x Hx Hcfg.
   unfold all_influences in Hx. apply in_app_or in Hx. destruct Hx as [Hx|Hx].
   2:{ exfalso. unfold is_config_input in Hcfg. apply path_in_spec in Hx. congruence. }
-  clear Hcfg. revert x Hx. apply (list_inputs_partial_gen k HG Hchk Hst c i Hlc Hrej).
+  clear Hcfg. revert x Hx. apply (list_inputs_partial_gen k HG Hchk Hst c i Hlc Hrej Hclash).
   - unfold eff_trig_lookup. rewrite H1. reflexivity.
   - unfold eff_trig_tpl. rewrite H2. exact Hpy.
   - unfold eff_trig_sup. rewrite H3, Hrefs. reflexivity.
